@@ -176,6 +176,41 @@ pub fn check(c: &Case, obs: &mut Obs) -> Result<(), String> {
         ("concat-changed", "concat-same", "concat-error"),
         &|buf| jsonb::concat(&b2, &b, buf),
     )?;
+    // the same edits with a document or the new value given as JSON text (non-negative integers
+    // of a text are unsigned, so the text side is the document's unsigned form)
+    if m.all_finite() && c.doc2.all_finite() && c.new_val.all_finite() && m.size() + c.doc2.size() < 3000 {
+        let sel = [(b.len() as u16).wrapping_mul(31), 5, 11];
+        let (mu, m2u, nvu) = (m.unsigned_norm(), c.doc2.unsigned_norm(), c.new_val.unsigned_norm());
+        let (tm, t2, tn) = (crate::textref::model_text(&mu, &sel), crate::textref::model_text(&m2u, &sel), crate::textref::model_text(&nvu, &sel));
+        judge(&format!("concat(doc, text of {:?})", c.doc2), Ok(t::concat(m, &m2u)), m, obs, ("concat-text", "concat-text", "concat-error"), &|buf| jsonb::concat(&b, &t2, buf))?;
+        judge(&format!("concat(text of doc, {:?})", c.doc2), Ok(t::concat(&mu, &c.doc2)), m, obs, ("concat-text", "concat-text", "concat-error"), &|buf| jsonb::concat(&tm, &b2, buf))?;
+        judge(&format!("concat(text of doc, text of {:?})", c.doc2), Ok(t::concat(&mu, &m2u)), m, obs, ("concat-text", "concat-text", "concat-error"), &|buf| jsonb::concat(&tm, &t2, buf))?;
+        judge(
+            &format!("array_insert({}, text of {:?})", c.pos, c.new_val),
+            Ok(t::array_insert(m, c.pos, &nvu)),
+            m,
+            obs,
+            ("array_insert-text", "array_insert-text", "array_insert-error"),
+            &|buf| jsonb::array_insert(&b, c.pos, &tn, buf),
+        )?;
+        judge(
+            &format!("object_insert({:?}, text of {:?}, update={})", c.name, c.new_val, c.update),
+            t::object_insert(m, &c.name, &nvu, c.update),
+            m,
+            obs,
+            ("object_insert-text", "object_insert-text", "object_insert-error"),
+            &|buf| jsonb::object_insert(&b, &c.name, &tn, c.update, buf),
+        )?;
+        let kp: Vec<_> = c.path.iter().map(|k| k.to_lib()).collect();
+        judge(
+            &format!("delete_by_keypath({:?}) on the text of doc", c.path),
+            t::delete_by_keypath(&mu, &c.path),
+            &mu,
+            obs,
+            ("delete_by_keypath-text", "delete_by_keypath-text", "delete_by_keypath-error"),
+            &|buf| jsonb::delete_by_keypath(&tm, kp.iter(), buf),
+        )?;
+    }
     nt |= judge(
         &format!("delete_by_name({:?})", c.name),
         t::delete_by_name(m, &c.name),
